@@ -17,7 +17,10 @@
 //	(iv)  the store never shows a holder later than one lease period after that holder's last
 //	      Campaign/Renew call;
 //	(v)   configs passed through config.InitSyncerConfig satisfy LeaseRenewInterval <=
-//	      LeaseTimeout/3 and the TTL that reaches the store is LeaseTimeout (whole seconds).
+//	      LeaseTimeout/3 and the TTL that reaches the store is LeaseTimeout (whole seconds);
+//	(vi)  the election ticker of cmd/syncer.go closes the syncer's wait with an error at the first
+//	      tick whose renewals (or campaign) failed and makes no election call with a live
+//	      context afterwards (ticker.go).
 package main
 
 import (
@@ -62,6 +65,7 @@ func main() {
 	if !r.Replaying() || r.WantCase("config") {
 		checkConfig(r)
 	}
+	checkTicker(r)
 	runHistories(r)
 
 	if !r.Replaying() {
